@@ -32,9 +32,31 @@ func genTspCase(t *rapid.T) tspCase {
 		n = rapid.IntRange(31, sz(34, 40)).Draw(t, "ln") // many rows: anything done "every so many rows" happens
 	}
 	w := make([][]int, n)
+	// palette mode: every weight is one of two or three values of different printed width, in runs (instances with
+	// 1/2 weights, unit weights with a few heavy edges, ...)
+	var palette []int
+	if rapid.IntRange(0, 3).Draw(t, "palette") == 0 {
+		if n < 4 {
+			n = rapid.IntRange(4, 12).Draw(t, "pn")
+			w = make([][]int, n)
+		}
+		for k := rapid.IntRange(2, 3).Draw(t, "pk"); k > 0; k-- {
+			palette = append(palette, rapid.SampledFrom([]int{-1, 1, 9, 10, 7, 123, 0, -100, 99, 100, 1000000, -1000000, 3, 12345678}).Draw(t, "pv"))
+		}
+	}
+	prev := 0
 	for i := range w {
 		w[i] = make([]int, i)
 		for j := range w[i] {
+			if palette != nil {
+				if (i > 1 || j > 0) && rapid.IntRange(0, 9).Draw(t, "run") < 6 {
+					w[i][j] = prev
+				} else {
+					w[i][j] = palette[rapid.IntRange(0, len(palette)-1).Draw(t, "pi")]
+				}
+				prev = w[i][j]
+				continue
+			}
 			switch rapid.IntRange(0, 9).Draw(t, "kind") {
 			case 0:
 				w[i][j] = 0
